@@ -9,15 +9,17 @@
 (*                         (rendered by the spec) and its SHA-1 (hashlib)]    *)
 EXTENDS IndexFormat_Trace
 
-\* version 3 exactly if an entry carries extended flags (0 in an event: derive it from the expected entries)
-ExpVersion(r) == IF r.expect.version # 0 THEN r.expect.version
-                 ELSE IF \E i \in 1..Len(r.expect.entries) : r.expect.entries[i].extended THEN 3 ELSE 2
+\* the writer emits version 2 or 3, and 3 whenever an entry carries extended flags (git reads a version 3
+\* file without such entries just as well, so the minimal version is not demanded)
+VersionOk(r, d) == /\ d.version \in {2, 3}
+                   /\ ((\E i \in 1..Len(r.expect.entries) : r.expect.entries[i].extended) => d.version = 3)
+                   /\ r.version_ret = d.version
 
 Why2(r) ==
   LET d == Decode(r.out) IN
   IF ~d.ok THEN {"layout"}
   ELSE (IF d.trailer # r.sha_body \/ r.checksum # r.sha_body THEN {"checksum"} ELSE {})
-       \cup (IF d.version # ExpVersion(r) \/ r.version_ret # d.version THEN {"version"} ELSE {})
+       \cup (IF ~VersionOk(r, d) THEN {"version"} ELSE {})
        \cup (IF d.entries # r.expect.entries THEN {"entries"} ELSE {})
        \cup (IF ~TreeExtEq(d.tree, r.expect.tree) THEN {"tree"} ELSE {})
        \cup (IF d.sparse # r.expect.sdir THEN {"sparse"} ELSE {})
